@@ -155,6 +155,18 @@ Fixpoint run_gen (orig : bool) (s : state) (h : list op) : list res * state :=
   end.
 Definition run := run_gen false.
 
+(** ---- restart: traffic.New + Init over the same store (trafficInit at /repo HEAD) ----
+    The records are rebuilt for the peer list (addresses with a stored last received cheque, then the
+    chain's lists); transferChequeTraffic := max(transferChainTraffic, last stored cheque), where
+    transferChainTraffic is the chain's TransAmount(peer, self) ([chain], absent = 0).  The address
+    book is reloaded from the store (unchanged here). *)
+Definition get0z (k : N) (l : list (N * Z)) : Z := match get k l with Some v => v | None => 0%Z end.
+Definition restore_credited (chain : list (addr * Z)) (st : store) (l : list addr) : list (addr * Z) :=
+  fold_left (fun cr a => set a (Z.max (get0z a chain) (last_payout st a)) cr) l [].
+Definition restore (s : state) (chain : list (addr * Z)) (lists : list addr) : state :=
+  {| self := self s; book := book s; last_recv := last_recv s;
+     credited := restore_credited chain (last_recv s) (map fst (last_recv s) ++ lists) |}.
+
 (** ---- specification objects (independent of the step functions) ---- *)
 
 Definition is_ok (r : res) : bool := match r with Ok _ => true | Err _ => false end.
